@@ -60,6 +60,8 @@ WSub(info, subs) == Beh(FALSE, WriteTok(info), <<>>, <<>>, NoData, subs)
 TreeMsgs(c) == (IF NextOf(c) # "" THEN {Exec(NextOf(c), <<>>)} ELSE {})
                \cup {Send("u2", 1), Send("u2", 9)}
                \cup (IF c = A THEN {Send(A, 9)} ELSE {})            \* a transfer to itself of more than it owns: fails like any overdraw
+               (* a transfer of two coins of which the second cannot be covered: fails as a whole, the first coin does not move *)
+               \cup (IF c = A THEN {[k |-> "bank_send", to |-> "u2", coins |-> << <<"eth", 1>>, <<"eth", 9>> >>]} ELSE {})
                \cup (IF Level > 1 /\ c = A THEN {Inst(1, "Lx", "", <<>>, ""), Inst(7, "Lx", "", <<>>, "")} ELSE {})
 TreeSubs(c) == {Sub(m, 7, "p1", on) : m \in TreeMsgs(c), on \in Ons}
 TreeSecond == {Sub(m, 8, "p2", on) : m \in {Send("u2", 1), Send("u2", 9)}, on \in Ons}
